@@ -270,7 +270,7 @@ func genC18Wide(g *Gen) {
 			emitReader(c18Data(3, 0), maxI-d, []int64{l, 2}, [][2]int64{{0, 0}, {0, 2}}, "reader-int64-end")
 		}
 	}
-	nr := g.N(3000, 60000)
+	nr := g.N(3000, 40000)
 	for k := 0; k < nr; k++ {
 		fl := g.R.Pick(0, 1, 2, 7, 8, 63, 64, 65, 100, 255, 256, 257, 300)
 		if g.R.Intn(4) == 0 {
@@ -437,7 +437,7 @@ func genC18Wide(g *Gen) {
 	}
 	g.Exhaust = append(g.Exhaust, "File: initial files of 0/1/3 bytes x off 0..3 x n in {AtToWriter, 0, 1, 3} x every pair of calls from a 9-call alphabet (Write 0..2; WriteAt (1,0) (2,1) (1,2); Seek (0,start) (2,start) (1,current)) followed by Write(2), then Reads of 1, 3, 4 bytes through AtToReader at the section start")
 
-	nf := g.N(3000, 80000)
+	nf := g.N(3000, 50000)
 	for k := 0; k < nf; k++ {
 		il := g.R.Pick(0, 0, 1, 5, 64, 100, 200)
 		if g.R.Intn(4) == 0 {
